@@ -11,7 +11,7 @@ service is the trampoline or generated code, the methods of the table in service
 import random
 import sys
 
-from check_build import SRC, Injected, Scenario, cfg_error
+from check_build import SRC, Injected, Scenario, cfg_error, held_dispatch
 from common import run_driver, use_repo
 from corr_i import NATURAL, out_kind
 
@@ -21,7 +21,7 @@ use_repo()
 def observe(ov, ident, defns=None):
     ds = [ident[f.__code__.co_filename] for f in (defns if defns is not None else ov.defns).values()]
     table = []
-    gen = hasattr(ov, "dispatch") and ov.dispatch.__code__.co_filename.startswith("<ovld:")
+    gen = hasattr(ov, "dispatch") and held_dispatch(ov).__code__.co_filename.startswith("<ovld:")
     if hasattr(ov, "map"):
         table = [ident[h.__code__.co_filename] for h in ov.map.priorities]
     return {"defns": ds, "compiled": bool(ov._compiled), "entry": gen, "table": table}
@@ -70,6 +70,7 @@ def run_real(sc, rng, k, has_bad):
     # the first definition goes in before the variant is created (an Ovld gets its dispatch function then)
     p.register(sc.fns[0])
     c = Ovld(mixins=[p], linkback=True)
+    held_dispatch(p), held_dispatch(c)
     probes = sc.probes()
     ops = [["regP", 0, False, False]]
     recs = [{"res": ("done",), "p": observe(p, ident), "c": observe(c, ident)}]
@@ -124,7 +125,7 @@ def run_real(sc, rng, k, has_bad):
                     res = ("done",)
                 else:
                     ov = p if op[0] == "callP" else c
-                    target = ov if op[1] == "obj" or not hasattr(ov, "dispatch") else ov.dispatch
+                    target = ov if op[1] == "obj" or not hasattr(ov, "dispatch") else held_dispatch(ov)
                     r_ = target(probes[op[3]])
                     res = ("ok", repr(r_)[:60])
             except Injected:
